@@ -91,8 +91,12 @@ func vrfSplitFill(rng *rand.Rand, total, maxFrame int64) (frames [][2]int) {
 }
 
 // vrfOverflowFrame picks the frame that goes beyond the window: (data bytes, padding).
-func vrfOverflowFrame(rng *rand.Rand, maxFrame int64) (n, pad int) {
-	switch rng.IntN(5) {
+func vrfOverflowFrame(rng *rand.Rand, maxFrame int64, small bool) (n, pad int) {
+	k := rng.IntN(5)
+	if small && k == 2 {
+		k = 1
+	}
+	switch k {
 	case 0:
 		return 0, 0 // Length 1: only the Pad Length octet
 	case 1:
@@ -201,14 +205,6 @@ func vrfC11ServerScript(h *vrfSrv, rng *rand.Rand, d *vrfC11Desc) {
 		defer st.app.mu.Unlock()
 		return st.app.issued == st.app.completed
 	}
-	// belief: the server's own idea of the connection window (white box), -1 if unavailable
-	belief := func() (avail, unsent int64) {
-		smp, ok := h.sample()
-		if !ok {
-			return -1, -1
-		}
-		return int64(smp.avail), int64(smp.unsent)
-	}
 	sendFrames := func(st *vrfSrvStream, frames [][2]int) {
 		var out []byte
 		for _, f := range frames {
@@ -229,6 +225,8 @@ func vrfC11ServerScript(h *vrfSrv, rng *rand.Rand, d *vrfC11Desc) {
 	}
 	nextID := uint32(1)
 	probes := 2 + rng.IntN(5)
+	beliefAbove := false // white box: the server's inflow.avail was seen above the peer's view of the connection window
+	endAfter := false
 	for p := 0; p < probes && !h.dead; p++ {
 		st := h.open(nextID, -1, false, true)
 		nextID += 2
@@ -328,51 +326,96 @@ func vrfC11ServerScript(h *vrfSrv, rng *rand.Rand, d *vrfC11Desc) {
 			if !idle(st) {
 				d.note("handler of s=%d not idle: no overflow", st.id)
 			} else {
-				conn, sw, mf := h.view(st.id)
-				room := max(min(conn, sw), 0)
-				avail, unsent := belief()
-				n, pad := vrfOverflowFrame(rng, mf)
-				fc := int64(n)
-				if pad >= 0 {
-					fc += 1 + int64(pad)
-				}
-				var pre [][2]int
-				if room > 0 { // the view moved (window update after the last fill): fill again in the same write
-					pre = vrfSplitFill(rng, room, mf)
+				// The window must be at exactly zero at a quiescent point first. Filling it can
+				// itself release credit (padding is refunded at once; batched credit is sent as
+				// soon as it would double the shrunken window), so: fill, settle, look again.
+				var conn, sw, mf, room int64
+				sameWrite := false
+				var smp vrfSrvSample
+				for i := 0; i < 8; i++ {
+					conn, sw, mf = h.view(st.id)
+					room = max(min(conn, sw), 0)
+					var ok bool
+					if smp, ok = h.sample(); !ok {
+						return
+					}
+					if room == 0 {
+						break
+					}
+					// With no credit batched anywhere and no padding, nothing can be released by
+					// the fill: then the excess frame may travel in the same write.
+					if smp.unsent == 0 && smp.stUnsent[st.id] == 0 && rng.IntN(2) == 0 {
+						sameWrite = true
+						break
+					}
+					pre := vrfSplitFill(rng, room, mf)
 					for _, f := range pre {
 						accepted += int64(f[0])
 					}
-				}
-				sendFrames(st, append(pre, [2]int{n, pad}))
-				d.note("overflow s=%d window(conn=%d stream=%d) prefill=%d excess frame data=%d pad=%d (server belief avail=%d unsent=%d)", st.id, conn, sw, room, n, pad, avail, unsent)
-				if !h.quiescent() && !h.dead {
-					return
-				}
-				se, ce := flowErr(st.id)
-				which := "stream"
-				if conn <= sw {
-					which = "connection"
-				}
-				if !se && !ce {
-					key := "overflow-not-rejected:" + which + "-window"
-					if avail >= 0 && avail > conn {
-						key = "overflow-not-rejected:server-belief-above-peer-view"
+					sendFrames(st, pre)
+					d.note("top-up s=%d -> %d", st.id, room)
+					if !h.quiescent() {
+						return
 					}
-					viol(key, "the peer's window was exhausted (connection %d, stream %d after a prefill of %d) and it sent %d more flow-controlled bytes on stream %d; no RST_STREAM(FLOW_CONTROL_ERROR) on the stream and no GOAWAY(FLOW_CONTROL_ERROR) followed (server's belief of the connection window before: avail=%d unsent=%d)", conn, sw, room, fc, st.id, avail, unsent)
+				}
+				if room > 0 && !sameWrite {
+					d.note("window of s=%d does not settle at zero: no overflow", st.id)
 				} else {
-					d.overflows++
-					if unsent > 0 {
-						d.batchedAtOverflow++
+					avail, unsent := int64(smp.avail), int64(smp.unsent)
+					n, pad := vrfOverflowFrame(rng, mf, p < probes-1)
+					fc := int64(n)
+					if pad >= 0 {
+						fc += 1 + int64(pad)
 					}
-					if ce {
-						h.R.Event("server_overflow_answered_with_connection_error", 1)
+					var pre [][2]int
+					if sameWrite {
+						for left := room; left > 0; { // unpadded prefill
+							k := min(left, mf, 1+rng.Int64N(left))
+							pre = append(pre, [2]int{int(k), -1})
+							accepted += k
+							left -= k
+						}
+					}
+					sendFrames(st, append(pre, [2]int{n, pad}))
+					d.note("overflow s=%d window(conn=%d stream=%d) same-write prefill=%d excess frame data=%d pad=%d (server belief avail=%d unsent=%d)", st.id, conn, sw, len(pre), n, pad, avail, unsent)
+					if !h.quiescent() && !h.dead {
+						return
+					}
+					se, ce := flowErr(st.id)
+					which := "stream"
+					if conn <= sw {
+						which = "connection"
+					}
+					if avail > conn {
+						beliefAbove = true
+					}
+					if !se && !ce {
+						key := "overflow-not-rejected:" + which + "-window"
+						if beliefAbove {
+							key = "overflow-not-rejected:server-belief-above-peer-view"
+						}
+						viol(key, "the peer's window was exhausted (connection %d, stream %d; %d in-window frames in the same write) and it sent %d more flow-controlled bytes on stream %d; no RST_STREAM(FLOW_CONTROL_ERROR) on the stream and no GOAWAY(FLOW_CONTROL_ERROR) followed (server's belief of the connection window before: avail=%d unsent=%d)", conn, sw, len(pre), fc, st.id, avail, unsent)
 					} else {
-						h.R.Event("server_overflow_answered_with_stream_error", 1)
+						d.overflows++
+						if unsent > 0 || smp.stUnsent[st.id] > 0 {
+							d.batchedAtOverflow++
+						}
+						if ce {
+							h.R.Event("server_overflow_answered_with_connection_error", 1)
+						} else {
+							h.R.Event("server_overflow_answered_with_stream_error", 1)
+						}
+						h.R.Event("server_overflow_of_"+which+"_window", 1)
+						if sameWrite {
+							h.R.Event("server_overflow_in_same_write_as_last_fill", 1)
+						}
 					}
-					h.R.Event("server_overflow_of_"+which+"_window", 1)
-				}
-				if h.dead {
-					return
+					if h.dead {
+						return
+					}
+					if which == "connection" {
+						endAfter = true // the peer has broken the connection's flow control: nothing after this is specified
+					}
 				}
 			}
 		}
@@ -383,9 +426,17 @@ func vrfC11ServerScript(h *vrfSrv, rng *rand.Rand, d *vrfC11Desc) {
 		}
 		read, _, _, _, _ := st.app.snapshot()
 		if read > accepted {
-			viol("excess-bytes-delivered", "stream %d: %d body bytes were sent within the window, the handler received %d", st.id, accepted, read)
+			key := "excess-bytes-delivered"
+			if beliefAbove {
+				key += ":server-belief-above-peer-view"
+			}
+			viol(key, "stream %d: %d body bytes were sent within the window, the handler received %d", st.id, accepted, read)
 		}
 		h.R.Event("server_body_delivery_checks", 1)
+		if endAfter {
+			d.note("connection window was overflowed: end of session")
+			break
+		}
 		// finish the stream, or keep it (unread) so that the next probe meets a used connection window
 		st.app.send(vrfCmd{'w', 10})
 		st.app.send(vrfCmd{'x', 0})
@@ -569,23 +620,52 @@ func vrfC11ClientScript(h *vrfCli, rng *rand.Rand, d *vrfC11Desc) {
 			d.note("consumer of s=%d not idle: no overflow", rq.id)
 			return
 		}
-		conn, sw, mf := h.view(rq.id)
-		room := max(min(conn, sw), 0)
-		smp := h.sample()
-		n, pad := vrfOverflowFrame(rng, mf)
+		var conn, sw, mf, room int64
+		sameWrite := false
+		var smp vrfCliSample
+		for i := 0; i < 8; i++ {
+			conn, sw, mf = h.view(rq.id)
+			room = max(min(conn, sw), 0)
+			smp = h.sample()
+			if room == 0 {
+				break
+			}
+			if smp.unsent == 0 && smp.stUnsent[rq.id] == 0 && rng.IntN(2) == 0 {
+				sameWrite = true
+				break
+			}
+			pre := vrfSplitFill(rng, room, mf)
+			for _, f := range pre {
+				accepted += int64(f[0])
+			}
+			sendFrames(rq, pre)
+			d.note("top-up s=%d -> %d", rq.id, room)
+			if !h.settle() {
+				viol("in-window-data-killed-connection", "the peer topped its window up with %d flow-controlled bytes on stream %d (connection %d, stream %d) and the client ended the connection (read loop error: %v)", room, rq.id, conn, sw, h.CC.readerErr)
+				return
+			}
+		}
+		if room > 0 && !sameWrite {
+			d.note("window of s=%d does not settle at zero: no overflow", rq.id)
+			return
+		}
+		n, pad := vrfOverflowFrame(rng, mf, false)
 		fc := int64(n)
 		if pad >= 0 {
 			fc += 1 + int64(pad)
 		}
 		var pre [][2]int
-		if room > 0 {
-			pre = vrfSplitFill(rng, room, mf)
-			for _, f := range pre {
-				accepted += int64(f[0])
+		if sameWrite {
+			for left := room; left > 0; {
+				k := min(left, mf, 1+rng.Int64N(left))
+				pre = append(pre, [2]int{int(k), -1})
+				accepted += k
+				left -= k
 			}
+			h.R.Event("client_overflow_in_same_write_as_last_fill", 1)
 		}
 		sendFrames(rq, append(pre, [2]int{n, pad}))
-		d.note("overflow s=%d window(conn=%d stream=%d) prefill=%d excess frame data=%d pad=%d (client belief avail=%d unsent=%d)", rq.id, conn, sw, room, n, pad, smp.avail, smp.unsent)
+		d.note("overflow s=%d window(conn=%d stream=%d) same-write prefill=%d excess frame data=%d pad=%d (client belief avail=%d unsent=%d)", rq.id, conn, sw, len(pre), n, pad, smp.avail, smp.unsent)
 		h.settle()
 		which := "stream"
 		if conn <= sw {
@@ -594,10 +674,10 @@ func vrfC11ClientScript(h *vrfCli, rng *rand.Rand, d *vrfC11Desc) {
 		se, _ := h.Sh.flowErr(rq.id)
 		rep, how := connFlowErr()
 		if !se && !rep {
-			viol("overflow-not-rejected:"+which+"-window", "the peer's window was exhausted (connection %d, stream %d after a prefill of %d) and it sent %d more flow-controlled bytes on stream %d; the client neither reset the stream nor failed the connection with FLOW_CONTROL_ERROR (connection closed by client: %v, read loop error: %v; client's belief before: avail=%d unsent=%d)", conn, sw, room, fc, rq.id, sc.NC.clientClosed(), h.CC.readerErr, smp.avail, smp.unsent)
+			viol("overflow-not-rejected:"+which+"-window", "the peer's window was exhausted (connection %d, stream %d; %d in-window frames in the same write) and it sent %d more flow-controlled bytes on stream %d; the client neither reset the stream nor failed the connection with FLOW_CONTROL_ERROR (connection closed by client: %v, read loop error: %v; client's belief before: avail=%d unsent=%d)", conn, sw, len(pre), fc, rq.id, sc.NC.clientClosed(), h.CC.readerErr, smp.avail, smp.unsent)
 		} else {
 			d.overflows++
-			if smp.unsent > 0 {
+			if smp.unsent > 0 || smp.stUnsent[rq.id] > 0 {
 				d.batchedAtOverflow++
 			}
 			h.R.Event("client_overflow_of_"+which+"_window", 1)
